@@ -60,6 +60,15 @@ func capKey(i int) string        { return fmt.Sprintf("K%d", i) }
 func destAddr(i int) string      { return fmt.Sprintf("10.0.0.%d:2003", i) }
 func destKey(i int) string       { return util.Key("S", destAddr(i)) }
 
+// destFilter: destination 1 of route S starts with a filter that rejects the dispatched names through its
+// second condition (sub passes, notSub rejects); the other destinations have none
+func destFilter(i int) ref.Filter {
+	if i == 1 {
+		return ref.Filter{Sub: "m", NotSub: "m"}
+	}
+	return ref.Filter{}
+}
+
 // world is the real table of one execution plus handles on its entities.
 type world struct {
 	t     *table.Table
@@ -148,8 +157,8 @@ func build(s shape) (*world, ref.Table) {
 		var ds []*destination.Destination
 		mr := ref.Route{Key: "S", Type: ref.TypeAll}
 		for i := 0; i < s.dests; i++ {
-			ds = append(ds, w.newDest(i, ref.Filter{}))
-			mr.Dests = append(mr.Dests, ref.Dest{Key: destKey(i)})
+			ds = append(ds, w.newDest(i, destFilter(i)))
+			mr.Dests = append(mr.Dests, ref.Dest{Key: destKey(i), Filter: destFilter(i)})
 		}
 		r, err := route.NewSendAllMatch("S", matcher.Matcher{}, ds)
 		if err != nil {
@@ -285,7 +294,23 @@ func ops(s shape) []adminOp {
 			func(t *ref.Table) {
 				r := routeS(t)
 				ds := append([]ref.Dest{}, r.Dests...)
-				ds[1].Filter = ref.Filter{Prefix: "q"}
+				f := ds[1].Filter // only the named option changes
+				f.Prefix = "q"
+				ds[1].Filter = f
+				r.Dests = ds
+			},
+			func(t *ref.Table) bool { r := routeS(t); return r == nil || len(r.Dests) < 2 }})
+		// two conditions change at once: a name rejected by the old filter (through notSub) and by the new
+		// one (through sub) must stay rejected whichever of the two a dispatcher sees
+		out = append(out, adminOp{"updateDest(S,1,sub=q notSub=z)", func(w *world) error {
+			return w.t.UpdateDestination("S", 1, map[string]string{"sub": "q", "notSub": "z"})
+		},
+			func(t *ref.Table) {
+				r := routeS(t)
+				ds := append([]ref.Dest{}, r.Dests...)
+				f := ds[1].Filter
+				f.Sub, f.NotSub = "q", "z"
+				ds[1].Filter = f
 				r.Dests = ds
 			},
 			func(t *ref.Table) bool { r := routeS(t); return r == nil || len(r.Dests) < 2 }})
@@ -1157,9 +1182,14 @@ func main() {
 				}
 				names := []string{name, "m"}[:nd]
 				e0 := &concExec{shape: s, script: sc, names: names}
+				g := groups
+				if strings.Contains(e0.scriptString(), "updateDest") {
+					// statement-level interleaving inside Matcher.Match as well: a filter must be seen whole
+					g = map[string]bool{"c18": true, "c18m": true}
+				}
 				scns = append(scns, &vrt.Scenario{
 					Name: fmt.Sprintf("conc %+v [%s] x%d", s, e0.scriptString(), nd),
-					Cfg:  vrt.Config{Groups: groups, MaxSteps: 50000}, Model: vrt.CostDelay, Bound: b,
+					Cfg:  vrt.Config{Groups: g, MaxSteps: 50000}, Model: vrt.CostDelay, Bound: b,
 					New: func() vrt.Exec { return &concExec{shape: s, script: sc, names: names} },
 				})
 			}
